@@ -141,19 +141,25 @@ RegionVariantsFull ==
 RoutineVariantsFull == {Variant("ACCEnterDataTrans", "", 0), Variant("ACCRoutineTrans", "", 0)}
 NodeVariantsFull == {Variant("OMPTaskwaitTrans", "", 0)}
 
+\* "core": one variant per nesting-relevant directive kind (deep histories);
+\* "core+" adds the combined parallel-do and the kernels region
 LoopVariantsCore ==
   {Variant("OMPLoopTrans", "do", 0), Variant("OMPLoopTrans", "loop", 0),
-   Variant("OMPLoopTrans", "paralleldo", 0),
    Variant("OMPTaskloopTrans", "", 0), Variant("ACCLoopTrans", "independent", 0)}
 RegionVariantsCore ==
   {Variant(t, "", 0) : t \in {"OMPParallelTrans", "OMPSingleTrans", "OMPTargetTrans",
-                              "ACCParallelTrans", "ACCKernelsTrans", "ACCDataTrans"}}
+                              "ACCParallelTrans", "ACCDataTrans"}}
+LoopVariantsCorePlus == LoopVariantsCore \cup {Variant("OMPLoopTrans", "paralleldo", 0)}
+RegionVariantsCorePlus == RegionVariantsCore \cup {Variant("ACCKernelsTrans", "", 0),
+                                                    Variant("OMPMasterTrans", "", 0)}
 
-CONSTANTS Alphabet,     \* "full" | "core"
+CONSTANTS Alphabet,     \* "full" | "core" | "core+"
           MaxLen,       \* longest history generated
           Skels         \* set of skeleton names
-LoopVariants(s) == IF Alphabet = "full" THEN LoopVariantsFull(s) ELSE LoopVariantsCore
-RegionVariants  == IF Alphabet = "full" THEN RegionVariantsFull ELSE RegionVariantsCore
+LoopVariants(s) == IF Alphabet = "full" THEN LoopVariantsFull(s)
+                   ELSE IF Alphabet = "core+" THEN LoopVariantsCorePlus ELSE LoopVariantsCore
+RegionVariants  == IF Alphabet = "full" THEN RegionVariantsFull
+                   ELSE IF Alphabet = "core+" THEN RegionVariantsCorePlus ELSE RegionVariantsCore
 RoutineVariants == IF Alphabet = "full" THEN RoutineVariantsFull ELSE {}
 NodeVariants    == IF Alphabet = "full" THEN NodeVariantsFull ELSE {}
 
